@@ -3,19 +3,14 @@
 From Coq Require Import List Arith Bool Lia.
 From TT Require Import Base.HeapTypes Model.Heap Model.HeapTriggers Spec.ModelWF
   Proofs.C15.HeapLemmas Proofs.C15.Links Proofs.C15.Tree Proofs.C15.Frames Proofs.C15.LinkOps Proofs.C15.Values
-  Proofs.C15.Dfs Proofs.C15.AttrCalls Proofs.C15.LinkCalls Proofs.C15.SetDoc Proofs.C15.Content.
+  Proofs.C15.Dfs Proofs.C15.AttrCalls Proofs.C15.LinkCalls Proofs.C15.SetDoc Proofs.C15.SetDocTree Proofs.C15.Content.
 Import ListNotations.
-
-(* the one call shape whose preservation proof is not finished: set_doc(doc) on an element that has
-   children (the recursive attachment of a whole detached tree) *)
-Definition open_case (h : heap) (c : call) : bool :=
-  match c with CSetDoc s (Some _) => is_some (n_first (nd h s)) | _ => false end.
 
 Lemma ltb_lt' a b : (a <? b) = true -> a < b. Proof. apply Nat.ltb_lt. Qed.
 
-Theorem step_WF h c : WF h -> trigger h c = None -> open_case h c = false -> WF (fst (step h c)).
+Theorem step_WF h c : WF h -> trigger h c = None -> WF (fst (step h c)).
 Proof.
-  intros HW T O. unfold step. destruct (call_ok h c) eqn:OK; [|exact HW]. cbn [fst].
+  intros HW T. unfold step. destruct (call_ok h c) eqn:OK; [|exact HW]. cbn [fst].
   unfold trigger in T. rewrite OK in T. cbn [negb] in T.
   destruct c; cbn [exec call_ok] in *; unfold node_ok, doc_ok in OK;
     repeat match goal with H : _ && _ = true |- _ => apply andb_true_iff in H; destruct H end;
@@ -31,10 +26,9 @@ Proof.
   - apply remove_children_WF; auto.
   - (* set_doc *)
     destruct d as [d|].
-    + apply set_doc_some_leaf_WF; auto.
+    + apply set_doc_some_WF; auto.
       * simpl in H0. apply ltb_lt'. exact H0.
       * destruct (t_set_doc_on_child h s); [discriminate|reflexivity].
-      * simpl in O. apply is_some_false. exact O.
     + apply set_doc_none_WF; auto. destruct (t_set_doc_none_children h s); [discriminate|reflexivity].
   - (* set_region *)
     apply set_region_WF; auto. intros rr ->. destruct (t_set_region_by_id h s rr); [discriminate|reflexivity].
@@ -53,21 +47,21 @@ Proof.
   - apply set_space_WF; auto.
 Qed.
 
-(* histories none of whose calls is an instance of a recorded finding or of the open case *)
+(* histories none of whose calls is an instance of a recorded finding *)
 Fixpoint admissible (h : heap) (cs : list call) : bool :=
   match cs with
   | [] => true
   | c :: t => match trigger h c with
               | Some _ => false
-              | None => negb (open_case h c) && admissible (fst (step h c)) t
+              | None => admissible (fst (step h c)) t
               end
   end.
 
 Theorem run_WF : forall cs h, WF h -> admissible h cs = true -> WF (run h cs).
 Proof.
   induction cs as [|c t IH]; intros h HW A; [exact HW|].
-  simpl in A. destruct (trigger h c) eqn:T; [discriminate|]. apply andb_true_iff in A. destruct A as [O A].
-  apply negb_true_iff in O. unfold run. simpl. apply IH; [apply step_WF; assumption|exact A].
+  simpl in A. destruct (trigger h c) eqn:T; [discriminate|].
+  unfold run. simpl. apply IH; [apply step_WF; assumption|exact A].
 Qed.
 
 (* ---- the initial universe is well formed ---- *)
